@@ -16,6 +16,15 @@
 #include <stddef.h>
 #include <sys/types.h>
 #include <inttypes.h>
+#include <unistd.h>   /* before common.h: it poisons usleep and assert */
+#include <time.h>
+#include <limits.h>
+#include <errno.h>
+#include <ctype.h>
+#include <fcntl.h>
+#include <dirent.h>
+#include <sys/stat.h>
+#include <sys/mman.h>
 #include "common.h"
 
 /* ---- ghost diagnostics ---- */
@@ -93,6 +102,22 @@ static inline int verif_fprintf(FILE *f)
 #define fprintf(f, ...) verif_fprintf(f)
 #undef printf
 #define printf(...) verif_fprintf(NULL)
+
+/* Witness / pre-state ghost bindings.  A binding such as `w_size == size` in a
+ * requires clause is an ASSUMPTION when the contract is enforced (it names the
+ * input for replay) but would be an ASSERTION where the same contract replaces a
+ * call.  So bindings are written WBIND(fn, w_size == size) after a WITNESS(fn)
+ * declaration, and only the harness of the group that ENFORCES fn's contract
+ * starts with WITNESS_ON(fn); everywhere else the flag is forced to 0 by
+ * WITNESS_OFF(fn) (or left arbitrary: a clause under WBIND may then be asserted
+ * at a call site, so harnesses that REPLACE fn must call WITNESS_OFF(fn)).
+ * Harness assignments run after DFCC's havoc of statics; the flags are in no
+ * assigns clause.  Postconditions must NOT depend on WBIND-bound ghosts unless
+ * the contract is never used for replacement. */
+#define WITNESS(fn) int g_w_##fn
+#define WBIND(fn, e) (!g_w_##fn || (e))
+#define WITNESS_ON(fn) do { g_w_##fn = 1; } while (0)
+#define WITNESS_OFF(fn) do { g_w_##fn = 0; } while (0)
 
 /* harness helpers: common.h poisons assert */
 #define VASSERT(c, msg) __CPROVER_assert((c), msg)
